@@ -103,6 +103,15 @@ WHITELIST = [
     ("safe_map_values", ["arr", "arr", "barr", "opt_int"]),
     ("ordered_inner_map_left_unique", ["arr", "arr", "arr", "arr"]),
     ("ordered_inner_map", ["arr", "arr", "arr", "arr"]),
+    # KT4C
+    ("generate_ordered_map_to_left_right_unique_partial_old", ["int", "arr", "arr", "arr", "int"]),
+    ("ordered_map_valid_partial_old", ["int", "arr", "arr", "arr", "int"]),
+    ("ordered_left_map_result_size", ["arr", "arr"]),
+    ("ordered_outer_map_result_size_both_unique", ["arr", "arr"]),
+    ("ordered_inner_map_left_unique_partial", ["int", "int", "arr", "arr", "arr", "arr"]),
+    ("ordered_get_last_as_filter", ["arr"]),
+    ("chunks", ["int", "int"]),
+    ("streaming_sort_partial", ["arr", "arr", "arr2", "arr2", "arr", "arr"]),
 ]
 
 LEAN_T = {"int": "Int", "bool": "Bool", "arr": "List Int", "barr": "List Bool", "opt_arr": "Option (List Int)",
@@ -219,7 +228,8 @@ class Kernel:
         if len(self.src_params) != len(ptypes):
             raise Unsupported(f"{len(self.src_params)} parameters in the source, {len(ptypes)} in the whitelist")
         for d in a.defaults:
-            if not (isinstance(d, ast.Constant) or (isinstance(d, ast.UnaryOp) and isinstance(d.operand, ast.Constant))):
+            if not (isinstance(d, ast.Constant) or (isinstance(d, ast.UnaryOp) and isinstance(d.operand, ast.Constant))) and \
+                    not (isinstance(d, ast.BinOp) and isinstance(d.left, ast.Constant) and isinstance(d.right, ast.Constant)):
                 raise Unsupported("non-constant default value")
         self.ptypes = list(ptypes)
         self.body = rewrite_continue(drop_message_strings(strip_doc(fn.body)))
@@ -230,6 +240,7 @@ class Kernel:
         self.optint = {f"p{k}" for k, t in enumerate(ptypes) if t == "opt_int"}
         self.loops = {}          # id(node) -> (k, has_break)
         self.number_loops()
+        self.find_yields()
         self.find_mutated()
         self.flagged = set()
         self.tmp = 0
@@ -287,6 +298,23 @@ class Kernel:
             returned = names if returned is None else returned & names
         returned = returned or set()
         self.mutated = sorted((p for p in stored if p not in returned), key=lambda x: int(x[1:]))
+
+    def find_yields(self):
+        """a GENERATOR (`yield a, b` of integers as a statement): rendered as the function that returns the lists of the values
+        yielded until exhaustion (one list per component, `y<j>`); exact for a generator without side effects, which is what the
+        supported subset admits (no stores into parameters, no `return` with a value)"""
+        ys = [n for b in self.body for n in ordered_nodes(b) if isinstance(n, (ast.Yield, ast.YieldFrom))]
+        self.yield_n = None
+        if not ys:
+            return
+        if any(isinstance(n, ast.YieldFrom) or n.value is None for n in ys):
+            raise Unsupported("yield from / yield without a value")
+        ns = {len(n.value.elts) if isinstance(n.value, ast.Tuple) else 1 for n in ys}
+        if len(ns) != 1:
+            raise Unsupported("yield statements of different arity")
+        if any(isinstance(n, ast.Return) for b in self.body for n in ordered_nodes(b)):
+            raise Unsupported("return in a generator")
+        self.yield_n = ns.pop()
 
     def opt_params_static(self):
         return {f"p{k}" for k, t in enumerate(self.ptypes) if t == "opt_arr"}
@@ -596,6 +624,11 @@ class Kernel:
             if t != "arr":
                 raise Unsupported(f"astype of a {t}")
             return "arr", x, b
+        if isinstance(n.func, ast.Attribute) and n.func.attr == "sum" and not n.args and not n.keywords:
+            t, x, b = self.expr(n.func.value, defined)             # `a.sum()` of a 1-D integer array (unbounded: no wrap-around)
+            if t != "arr":
+                raise Unsupported(f"sum of a {t}")
+            return "int", f"({x}.foldl (· + ·) 0)", b
         if isinstance(n.func, ast.Attribute) and n.func.attr in ("argmin", "argmax") and not n.args and not n.keywords:
             t, x, b = self.expr(n.func.value, defined)
             if t != "arr":
@@ -704,12 +737,27 @@ class Kernel:
                     b = b + bi + [(tmp, f"setIdxE {xb_} {xi} {x} {site}")]
                 return self.wrap(b, f"let s := {{ s with {a} := {tmp} }}").split("\n"), defined, False
             raise Unsupported(f"assignment target {type(tg).__name__}")
+        if isinstance(st, ast.AugAssign) and isinstance(st.target, ast.Subscript) and isinstance(st.target.value, ast.Name) and \
+                isinstance(st.target.slice, ast.Name) and isinstance(st.op, (ast.Add, ast.Sub)):
+            # `a[k] += e` with a plain variable `k`: `a[k] = a[k] + e` (the index is a variable, so reading it twice is the same)
+            load = ast.Subscript(value=ast.Name(id=st.target.value.id, ctx=ast.Load()),
+                                 slice=ast.Name(id=st.target.slice.id, ctx=ast.Load()), ctx=ast.Load())
+            store = ast.Subscript(value=ast.Name(id=st.target.value.id, ctx=ast.Load()),
+                                  slice=ast.Name(id=st.target.slice.id, ctx=ast.Load()), ctx=ast.Store())
+            return self.simple(ast.Assign(targets=[store], value=ast.BinOp(left=load, op=st.op, right=st.value)), defined, top)
         if isinstance(st, ast.AugAssign):
             if not isinstance(st.target, ast.Name):
                 raise Unsupported("augmented assignment to a subscript")
             load = ast.Name(id=st.target.id, ctx=ast.Load())
             t, x, b = self.expr(ast.BinOp(left=load, op=st.op, right=st.value), defined)
             return self.wrap(b, self.assign_name(st.target.id, t, x)).split("\n"), defined | {st.target.id}, False
+        if isinstance(st, ast.Expr) and isinstance(st.value, ast.Yield):
+            v = st.value.value
+            parts = [self.expr(e, defined) for e in (v.elts if isinstance(v, ast.Tuple) else [v])]
+            if any(p[0] != "int" for p in parts):
+                raise Unsupported("yield of a non-integer")
+            upd = ", ".join(f"y{j} := (s.y{j} ++ [{p[1]}])" for j, p in enumerate(parts))
+            return self.wrap([b for p in parts for b in p[2]], f"let s := {{ s with {upd} }}").split("\n"), defined, False
         if isinstance(st, ast.Expr):
             c = st.value
             if (isinstance(c, ast.Call) and isinstance(c.func, ast.Attribute) and isinstance(c.func.value, ast.Name) and
@@ -930,13 +978,27 @@ class Kernel:
         else:
             # the function falls off its end (returns None): its result is what it stored into its array parameters
             if any(isinstance(n, ast.Return) for b in body for n in ordered_nodes(b)):
-                raise Unsupported("a function that returns a value on some paths only")
-            if not self.mutated:
+                # the last statement is `while True:` without a `break` of its own: the loop is left by `return` only (or by an
+                # error), the end of the function is unreachable and is rendered as an error branch that no run takes
+                last = body[-1] if body else None
+                if not (isinstance(last, ast.While) and isinstance(last.test, ast.Constant) and last.test.value is True
+                        and not self.loops[id(last)][1]):
+                    raise Unsupported("a function that returns a value on some paths only")
+                ret = None
+            elif self.yield_n is not None:
+                if self.mutated:
+                    raise Unsupported("a generator that stores into its parameters")
+                ret = "yield"
+            elif not self.mutated:
                 raise Unsupported("the function returns nothing and stores into none of its parameters")
-            ret = ast.Return(value=ast.Tuple(elts=[], ctx=ast.Load()))
+            else:
+                ret = ast.Return(value=ast.Tuple(elts=[], ctx=ast.Load()))
+        if self.yield_n is not None and ret != "yield":
+            raise Unsupported("return in a generator")
         defined = {f"p{k}" for k in range(len(self.ptypes))}
         self.ret_types = None
-        main, d = self.block(body, defined, None, top=True, final=lambda d: self.ret_final(ret, d))
+        main, d = self.block(body, defined, None, top=True, final=lambda d: self.ret_final(ret, d) if ret is not None else
+                             f".error (.other {lean_str('unreachable: end of a function that ends in `while True`')})")
         rtype = LEAN_T[self.ret_types[0]] if len(self.ret_types) == 1 else \
             "(" + " × ".join(LEAN_T[t] for t in self.ret_types) + ")"
         missing = [v for v in self.locals if v not in self.env]
@@ -952,6 +1014,8 @@ class Kernel:
             fields.append(f"  {v} : {LEAN_T[self.env[v]]}")
             if v in self.flagged:
                 fields.append(f"  {v}_def : Bool")
+        for j in range(self.yield_n or 0):
+            fields.append(f"  y{j} : List Int")
         for node_id, (k, hb, _, _, _) in sorted(self.loops.items(), key=lambda kv: kv[1][0]):
             if hb:
                 fields.append(f"  brk{k} : Bool")
@@ -971,6 +1035,8 @@ class Kernel:
             init.append(f"{v} := {DEFAULT[self.env[v]]}")
             if v in self.flagged:
                 init.append(f"{v}_def := false")
+        for j in range(self.yield_n or 0):
+            init.append(f"y{j} := []")
         for node_id, (k, hb, _, _, _) in sorted(self.loops.items(), key=lambda kv: kv[1][0]):
             if hb:
                 init.append(f"brk{k} := false")
@@ -994,6 +1060,10 @@ class Kernel:
 
     def ret_final(self, ret, d):
         """`return E` (E a tuple: a product); the final contents of the arrays the kernel wrote into are appended"""
+        if ret == "yield":
+            self.ret_types = ["arr"] * self.yield_n
+            vals = [f"s.y{j}" for j in range(self.yield_n)]
+            return ".ok " + (vals[0] if len(vals) == 1 else "(" + ", ".join(vals) + ")")
         if isinstance(ret.value, ast.Tuple) and not ret.value.elts:
             parts = []                                              # a function without `return`
             types = [self.var(p, d)[0] for p in self.mutated]
